@@ -429,6 +429,8 @@ func (w *_nodeRepr) Length() int64 {
 	switch stg := reprStrategy(w.schemaType).(type) {
 	case schema.StructRepresentation_Stringjoin:
 		return -1
+	case schema.UnionRepresentation_Stringprefix:
+		return -1 // a string, like stringjoin
 	case schema.StructRepresentation_Map:
 		return w.lengthMinusAbsents()
 	case schema.StructRepresentation_Tuple:
